@@ -80,6 +80,7 @@ typedef struct qgen {
 	int main_tree;       // queues may target the main queue; any item outside that tree may dispatch_sync into it
 	int specific;        // set queue-specific keys
 	int blockobj;        // barrier items may be DISPATCH_BLOCK_BARRIER block objects
+	int no_privblocks;   // 1: never replace a block literal by a dispatch_block_create(0, ...) object
 } qgen;
 
 void qgen_defaults(qgen *g);
